@@ -287,6 +287,10 @@ def r4_authoritative(ctx):
 
 
 def r5_empty_import(ctx):
+    # an import line that follows an unselected clause closed by de-indentation is outside that clause: it closes the
+    # clause like any named node, otherwise its parse() is skipped and the import adds nothing (shared with C15.R4)
+    from . import C15 as _C15
+    _C15.r4_close_before_skip(ctx)
     fn = ctx.fn(DIP, "DIP.parse")
     asg = [a for a in ast.walk(fn) if isinstance(a, ast.Assign) and isinstance(a.value, ast.Call) and norm(a.value.func) == "node.parse"]
     if len(asg) != 1:
